@@ -20,10 +20,29 @@ def _library_path(p):
 
 
 class _State(object):
-    def __init__(self, fail_at):
+    def __init__(self, fail_at, read_roots=None, fail_read_at=None):
         self.n = 0
         self.fail_at = fail_at
         self.fired = None
+        # read faults: every open-for-reading of a file inside one of `read_roots` (the input trees) is a counted point;
+        # run k raises EACCES there (an input file that cannot be read)
+        self.read_roots = [os.path.realpath(r) for r in (read_roots or [])]
+        self.rn = 0
+        self.fail_read_at = fail_read_at
+
+    def read_point(self, file):
+        if not self.read_roots:
+            return
+        try:
+            rp = os.path.realpath(os.fspath(file))
+        except Exception:
+            return
+        if not any(rp == r or rp.startswith(r + os.sep) for r in self.read_roots):
+            return
+        self.rn += 1
+        if self.fail_read_at is not None and self.rn == self.fail_read_at:
+            self.fired = "open-for-reading %s" % os.path.basename(rp)
+            raise PermissionError(errno.EACCES, "injected fault at read point %d (open %s)" % (self.rn, os.path.basename(rp)), str(file))
 
     def point(self, what):
         self.n += 1
@@ -65,8 +84,8 @@ class _WProxy(object):
 class injecting(object):
     """with injecting(fail_at=None) as st: ...   st.n = number of points seen"""
 
-    def __init__(self, fail_at=None):
-        self.st = _State(fail_at)
+    def __init__(self, fail_at=None, read_roots=None, fail_read_at=None):
+        self.st = _State(fail_at, read_roots, fail_read_at)
 
     def __enter__(self):
         st = self.st
@@ -77,6 +96,8 @@ class injecting(object):
                 name = os.path.basename(str(file))
                 st.point("open %s" % name)
                 return _WProxy(_REAL_OPEN(file, mode, *a, **k), st, name)
+            if not isinstance(file, int):
+                st.read_point(file)
             return _REAL_OPEN(file, mode, *a, **k)
         self.saved = (builtins.open, io.open, os.mkdir, shutil.rmtree, os.rename, os.remove, os.replace)
         builtins.open = fopen
